@@ -1037,6 +1037,59 @@ fn init_tree(root: &Path, only_contracts: bool) {
     std::fs::write(root.join("conf").join("empty.toml"), "path = './proj'\noptimizations = []\nvulnerabilities = []\nqa = []\n").unwrap();
 }
 
+/// C12 / C13 at the level of the command-line program: the report is a function of THIS run's findings.  A run whose
+/// findings are few or none, made in a working directory in which an earlier run found many, leaves exactly the report that
+/// the same run leaves in a fresh working directory (no part, total or entry of the earlier run).
+pub fn report_follows_this_run(property: &str) -> (Vec<Violation>, u64) {
+    let mut vs = Vec::new();
+    let mut runs = 0u64;
+    let bin = match bin_path() {
+        Some(b) => b,
+        None => return (vs, 0),
+    };
+    let root = scratch(&format!("{}seq", property.to_lowercase()));
+    let mk = |d: &str, f: &str, src: &str| {
+        std::fs::create_dir_all(root.join(d)).unwrap();
+        if !f.is_empty() {
+            std::fs::write(root.join(d).join(f), src).unwrap();
+        }
+    };
+    mk("many", "Token.sol", crate::fsx::SRC_PQ);
+    mk("many", "Kill.sol", crate::fsx::SRC_SUICIDE);
+    mk("gas", "G.sol", "pragma solidity 0.8.19;\ncontract G {\n  function g(uint256 a, uint256 b) public payable returns (bool) {\n    return a >= b + 1;\n  }\n}\n");
+    mk("none", "N.sol", crate::fsx::SRC_NONE);
+    mk("empty", "", "");
+    for later in ["none", "empty", "gas", "many"] {
+        for earlier in ["many", "gas", "none"] {
+            let shared = root.join(format!("cwd-{}-{}", earlier, later));
+            let fresh = root.join(format!("fresh-{}-{}", earlier, later));
+            std::fs::create_dir_all(&shared).unwrap();
+            std::fs::create_dir_all(&fresh).unwrap();
+            let e = root.join(earlier);
+            let l = root.join(later);
+            let _ = run_bin(&bin, &shared, &["--path", e.to_str().unwrap()]);
+            let o1 = run_bin(&bin, &shared, &["--path", l.to_str().unwrap()]);
+            let o2 = run_bin(&bin, &fresh, &["--path", l.to_str().unwrap()]);
+            runs += 3;
+            let a = std::fs::read(shared.join("solstat_report.md")).ok();
+            let b = std::fs::read(fresh.join("solstat_report.md")).ok();
+            if !completed(o1.code) || !completed(o2.code) || a != b {
+                vs.push(Violation {
+                    site: "binary:report-of-a-later-run-shows-an-earlier-run".into(),
+                    input: format!("run on '{}' after a run on '{}' in the same working directory", later, earlier),
+                    expected: "the same report as the run on the later directory leaves in a fresh working directory".into(),
+                    observed: format!("exit {:?} / {:?}; report {} bytes against {} bytes", o1.code, o2.code, a.as_ref().map(|x| x.len() as i64).unwrap_or(-1), b.as_ref().map(|x| x.len() as i64).unwrap_or(-1)),
+                    size: 2,
+                    unit_test: String::new(),
+                    extra: json!({}),
+                });
+            }
+        }
+    }
+    let _ = std::fs::remove_dir_all(&root);
+    (vs, runs)
+}
+
 pub fn c18(tier: Tier) -> i32 {
     util::quiet();
     let mut run = Run::new("C18", if tier == Tier::Quick { "quick" } else { "thorough" });
